@@ -560,8 +560,8 @@ def money_texts(q, code, cfg, every=False, salt=0, suffix=""):
     return [out[salt % len(out)]]
 
 
-def pct_text(p, cfg, style):
-    n = number_text(q_fraction(p), cfg["dec"], cfg["tho"])
+def pct_text(p, cfg, style, group=False):
+    n = number_text(q_fraction(p), cfg["dec"], cfg["tho"], group=group)
     return n + "%" if style == "after" else "%" + n
 
 
